@@ -50,6 +50,26 @@ const nValidSecrets = 13
 const nSecrets = 17
 const zeroSecret = 17
 
+// the secrets a signer can be configured with
+var signingSecrets = []int{0, 1, 2, 3, 4, 5, 6, 7, 8, 9, 10, 11, 12, 18, 19}
+
+// HMAC does not use the secret as it is: a secret longer than the hash's block is replaced by its
+// hash, and the result is padded with zero bytes to the block. This block is the key of the MAC.
+func hmacBlock(alg string, k []byte) []byte {
+	hf := hmacHash(alg)
+	if hf == nil {
+		hf = sha256.New
+	}
+	h := hf()
+	if len(k) > h.BlockSize() {
+		h.Write(k)
+		k = h.Sum(nil)
+	}
+	out := make([]byte, h.BlockSize())
+	copy(out, k)
+	return out
+}
+
 func base(i int) []byte {
 	k := make([]byte, 64)
 	for j := range k {
@@ -117,6 +137,11 @@ func secret(i int) itokensjwt.SecretKeyType {
 		return []byte{}
 	case 17: // what a caller's wiped 64-byte buffer holds (never drawn as a signer's configured secret)
 		return make([]byte, 64)
+	case 18: // a different 64-byte secret that is the same HS256 key as the 100-byte secret 4: sha256(secret 4) and 32 zero bytes
+		h := sha256.Sum256(secret(4))
+		return append(h[:], make([]byte, 32)...)
+	case 19: // secret 0 and one zero byte: another HS256 key (65 bytes are hashed), the same HS384/HS512 key (zero padding to 128)
+		return append(base(0), 0)
 	}
 	panic(fmt.Sprintf("unknown secret %d", i))
 }
@@ -124,50 +149,70 @@ func secret(i int) itokensjwt.SecretKeyType {
 // secrets 2..10 agree with secret 0 on the first 64 bytes, 11..12 with secret 1
 func family(i int) int {
 	switch {
+	case i == 18:
+		return 2
 	case i == 0 || (i >= 2 && i <= 10) || i >= 13:
 		return 0
 	}
 	return 1
 }
 
-func keyRelation(a, b int) string {
+func keyRelation(a, b int, alg string) string {
 	ka, kb := secret(a), secret(b)
 	switch {
 	case bytes.Equal(ka, kb):
 		return "keys:same"
+	case bytes.Equal(hmacBlock(alg, ka), hmacBlock(alg, kb)):
+		return "keys:hmac-equivalent"
 	case len(ka) >= 64 && len(kb) >= 64 && bytes.Equal(ka[:64], kb[:64]):
 		return "keys:differ-only-after-byte-64"
 	}
 	return "keys:differ-within-64"
 }
 
-// the secret (of the universe) under which sig is the HMAC of text by the header's method, found
-// by recomputing the MAC with each WHOLE secret
-func macKey(alg string, text string, sig []byte) (int, error) {
+// the HMAC key block under which sig is the MAC of text by the header's method, found by
+// recomputing the MAC with each WHOLE secret of the run (equivalent secrets have the same block)
+func macKey(alg string, text string, sig []byte) ([]byte, error) {
 	hf := hmacHash(alg)
 	if hf == nil {
-		return -1, nil
+		return nil, nil
 	}
-	found := -1
-	for i := 0; i <= zeroSecret; i++ {
-		if i >= nValidSecrets && i != zeroSecret {
-			continue // secrets NewJWTSigner refuses never sign anything (and the empty one is the HMAC key 00..00)
-		}
+	var found []byte
+	for _, i := range append(append([]int{}, signingSecrets...), zeroSecret) {
 		m := hmac.New(hf, secret(i))
 		m.Write([]byte(text))
 		if hmac.Equal(sig, m.Sum(nil)) {
-			if found >= 0 && !bytes.Equal(secret(found), secret(i)) {
-				return -1, fmt.Errorf("secrets %d and %d are equivalent HMAC keys for %s", found, i, alg)
+			blk := hmacBlock(alg, secret(i))
+			if found != nil && !bytes.Equal(found, blk) {
+				return nil, fmt.Errorf("two different HMAC keys give the same %s MAC (secret %d)", alg, i)
 			}
-			if found < 0 {
-				found = i
-			}
+			found = blk
 		}
 	}
 	return found, nil
 }
 
-var payloadTypes = []string{"principal", "blob", "verified", "verification", "altprincipal"}
+var payloadTypes = []string{"principal", "blob", "verified", "verification", "altprincipal", "probe"}
+
+// ReservedProbe is a payload type whose top-level JSON keys collide with the claims the signer
+// writes (it embeds the generic payload, as "all payloads must inherit this payload" suggests).
+// The signer's claims win: the application, duration and issue time of a token are the signer's,
+// whatever the payload says; only the other fields (Login) are payload.
+type ReservedProbe struct {
+	istructs.GenericPayload
+	Login string
+}
+
+var reservedClaims = []string{"aud", "exp", "iat", "nbf", "iss", "sub", "jti", "Duration", "AppQName", "IssuedAt"}
+
+func isReserved(k string) bool {
+	for _, r := range reservedClaims {
+		if strings.EqualFold(k, r) {
+			return true
+		}
+	}
+	return false
+}
 
 func newPayload(ptype string) any {
 	switch ptype {
@@ -181,6 +226,8 @@ func newPayload(ptype string) any {
 		return &payloads.VerificationPayload{}
 	case "altprincipal": // same bare name, other package
 		return &alt.PrincipalPayload{}
+	case "probe":
+		return &ReservedProbe{}
 	}
 	panic("unknown payload type " + ptype)
 }
@@ -201,7 +248,7 @@ func issuedInts(pl any) string {
 	sort.Strings(keys)
 	var items []string
 	for _, k := range keys {
-		if n, ok := m[k].(json.Number); ok {
+		if n, ok := m[k].(json.Number); ok && !isReserved(k) {
 			if z, ok := new(big.Int).SetString(string(n), 10); ok {
 				items = append(items, fmt.Sprintf("(%s, (%s)%%Z)", bs(k), z.String()))
 			}
@@ -266,6 +313,11 @@ func makePayload(ptype string, v int) any {
 			&payloads.VerifiedValuePayload{Entity: q("a", "b")},
 			&payloads.VerifiedValuePayload{VerificationKind: appdef.VerificationKind_EMail, WSID: clusterWSID, ID: 1<<53 + 1, Entity: q("app", "doc"), Field: "n", Value: int64(1<<53 + 1)},
 			&payloads.VerifiedValuePayload{VerificationKind: appdef.VerificationKind_Phone, WSID: math.MaxUint64, ID: 1 << 53, Entity: q("a", "b"), Field: "n", Value: int64(1 << 53)}}[v%5]
+	case "probe": // a payload that names another application, duration and issue time than the signer's
+		return []any{&ReservedProbe{Login: "p0"},
+			&ReservedProbe{Login: "p1", GenericPayload: istructs.GenericPayload{AppQName: appdef.NewAppQName("acme", "billing"), Duration: 1000 * time.Hour, IssuedAt: kit.Epoch.Add(24 * time.Hour)}},
+			&ReservedProbe{Login: "p2", GenericPayload: istructs.GenericPayload{AppQName: appdef.NewAppQName("test1", "app2"), Duration: time.Nanosecond}},
+			&ReservedProbe{Login: "p3", GenericPayload: istructs.GenericPayload{AppQName: appdef.NewAppQName("sys", "registry"), Duration: -time.Hour, IssuedAt: kit.Epoch.Add(-1000 * time.Hour)}}}[v%4]
 	case "altprincipal":
 		return []any{&alt.PrincipalPayload{Login: "user1"}, &alt.PrincipalPayload{Login: "root", IsAPIToken: true, ProfileWSID: 1 << 53}}[v%2]
 	case "verification":
@@ -407,7 +459,7 @@ type tview struct {
 	claimsB  []byte
 	sigB64   bool
 	sig      []byte
-	macKey   int // index of the secret the signature was made under, -1: none
+	macKey   []byte // HMAC key block the signature was made under, nil: none of the run's secrets
 	sigCanon bool
 	iatOK    bool
 	iat      int64
@@ -439,16 +491,30 @@ func decodeClaims(b []byte) (map[string]any, error) {
 	return m, nil
 }
 
+// digest of the JSON image of a payload without the keys the signer reserves for itself (none of the
+// shipped payload types has one: checkReservedNames)
 func payloadDigest(p any) uint32 {
 	b, err := json.Marshal(p)
 	if err != nil {
 		return 0
 	}
+	if m, err := decodeClaims(b); err == nil && m != nil {
+		drop := false
+		for k := range m {
+			if isReserved(k) {
+				delete(m, k)
+				drop = true
+			}
+		}
+		if drop {
+			b, _ = json.Marshal(m)
+		}
+	}
 	return crc32.ChecksumIEEE(b)
 }
 
 func viewOf(tok string, ptype string) (*tview, error) {
-	v := &tview{hdr: "HBadB64", cl: "CBadB64", macKey: -1}
+	v := &tview{hdr: "HBadB64", cl: "CBadB64"}
 	if strings.Count(tok, ".") != 2 {
 		return v, nil
 	}
@@ -500,11 +566,19 @@ func viewOf(tok string, ptype string) (*tview, error) {
 	return v, nil
 }
 
-func optKey(i int) string {
-	if i < 0 {
+func optBlock(b []byte) string {
+	if b == nil {
 		return "None"
 	}
-	return "(Some " + kit.Bytes(secret(i)) + ")"
+	return "(Some " + kit.Bytes(b) + ")"
+}
+
+// the method whose key preprocessing applies to a token: the header's if it is an HMAC one
+func (v *tview) keyAlg() string {
+	if v.algIsStr && hmacHash(v.alg) != nil {
+		return v.alg
+	}
+	return "HS256"
 }
 
 func (v *tview) coq() string {
@@ -519,7 +593,7 @@ func (v *tview) coq() string {
 	if c == "CObj" {
 		c = "(CObj " + claimsCoq(v.claims) + ")"
 	}
-	return fmt.Sprintf("(VTok (mkTok %s %s %s %s %s %s %s))", h, c, kit.Bool(v.sigB64), optKey(v.macKey), kit.Bool(v.sigCanon),
+	return fmt.Sprintf("(VTok (mkTok %s %s %s %s %s %s %s))", h, c, kit.Bool(v.sigB64), optBlock(v.macKey), kit.Bool(v.sigCanon),
 		optZ(v.iatOK, v.iat), kit.OptN(v.plOK, uint64(v.plDigest)))
 }
 
@@ -798,7 +872,7 @@ func runKeys(cs *caseSpec) (coq string, tags []string, key string, nontrivial bo
 	tb, nb := construct(ks.B)
 	hashEq := "None"
 	cs.Obs = map[string]any{"a_len": len(secret(ks.A)), "b_len": len(secret(ks.B)), "a": na, "b": nb}
-	rel := keyRelation(ks.A, ks.B)
+	rel := keyRelation(ks.A, ks.B, "HS256")
 	tags = []string{"origin:keys", rel, fmt.Sprintf("ctor:%v,%v", ta != nil, tb != nil)}
 	if ta != nil && tb != nil {
 		ha, hb := ta.CryptoHash256(data), tb.CryptoHash256(data)
@@ -810,12 +884,13 @@ func runKeys(cs *caseSpec) (coq string, tags []string, key string, nontrivial bo
 		hashEq = "(Some " + kit.Bool(eq) + ")"
 		cs.Obs["hash_a"], cs.Obs["hash_b"], cs.Obs["hash_equal"] = hex.EncodeToString(ha[:]), hex.EncodeToString(hb[:]), eq
 		tags = append(tags, fmt.Sprintf("hash-equal:%v", eq))
-		if eq && rel != "keys:same" {
+		if eq && rel != "keys:same" && rel != "keys:hmac-equivalent" {
 			tags = append(tags, "same-hash-under-"+rel[5:])
 		}
 		nontrivial = rel != "keys:differ-within-64"
 	}
-	coq = fmt.Sprintf("TKeys (mkKeys %s %s %s %s %s)", kit.Bytes(secret(ks.A)), kit.Bytes(secret(ks.B)), kit.Bool(ta != nil), kit.Bool(tb != nil), hashEq)
+	coq = fmt.Sprintf("TKeys (mkKeys %s %s %s %s %s %s %s)", kit.Bytes(secret(ks.A)), kit.Bytes(secret(ks.B)),
+		kit.Bytes(hmacBlock("HS256", secret(ks.A))), kit.Bytes(hmacBlock("HS256", secret(ks.B))), kit.Bool(ta != nil), kit.Bool(tb != nil), hashEq)
 	sort.Strings(tags)
 	key = strings.Join(tags, ",") + fmt.Sprintf("|%d,%d|%d", len(secret(ks.A)), len(secret(ks.B)), len(data))
 	return coq, tags, key, nontrivial, nil
@@ -847,7 +922,7 @@ func run(cs *caseSpec) (coq string, tags []string, key string, nontrivial bool, 
 			tagset["mut:"+cs.Mut.Op] = true
 		}
 		t0abs := kit.Epoch.Add(time.Duration(is.T0)).UnixNano()
-		origin = fmt.Sprintf("(OIssued %s %s %s %s %s %s %d %s)", kit.Bytes(secret(is.Key)), kit.Bool(tok == issued),
+		origin = fmt.Sprintf("(OIssued %s %s %s %s %s %s %d %s)", "@@ISSUERKEY@@", kit.Bool(tok == issued),
 			bs(is.App), bs(audOf(is.PType)), zc(t0abs), zc(is.Dur), payloadDigest(pl), issuedInts(pl))
 		if hasIntAbove2p53(pl) {
 			tagset["payload:int>2^53"] = true
@@ -904,7 +979,14 @@ func run(cs *caseSpec) (coq string, tags []string, key string, nontrivial bool, 
 				exp, expOK = int64(math.Floor(f)), true
 			}
 		}
-		origin = fmt.Sprintf("(OSigned %s %s %s %s)", optKey(signedBy), optBytes(audOK, aud), optBytes(appOK, app), optZ(expOK, exp))
+		var sblk []byte
+		if signedBy >= 0 {
+			sblk = hmacBlock(v.keyAlg(), secret(signedBy))
+		}
+		origin = fmt.Sprintf("(OSigned %s %s %s %s)", optBlock(sblk), optBytes(audOK, aud), optBytes(appOK, app), optZ(expOK, exp))
+	}
+	if cs.Issue != nil {
+		origin = strings.Replace(origin, "@@ISSUERKEY@@", kit.Bytes(hmacBlock(v.keyAlg(), secret(cs.Issue.Key))), 1)
 	}
 
 	nowAbs := clock.Now().UnixNano()
@@ -956,7 +1038,7 @@ func run(cs *caseSpec) (coq string, tags []string, key string, nontrivial bool, 
 	}
 	cs.Obs = map[string]any{"itokens": o1.desc(), "iapptokens": o2.desc(), "authenticate": authDesc}
 
-	coq = fmt.Sprintf("TVal (mkTrace %s %s %s %s %s %s %s %s %s %s %s)", kit.Bytes(valKey), kit.Bytes(callerBuf), kit.Bool(tok == ""), zc(nowAbs), bs(audOf(cs.Val.PType)), bs(cs.Val.App), v.coq(), origin, o1.coq(), o2.coq(), auth)
+	coq = fmt.Sprintf("TVal (mkTrace %s %s %s %s %s %s %s %s %s %s %s)", kit.Bytes(hmacBlock(v.keyAlg(), valKey)), kit.Bytes(hmacBlock(v.keyAlg(), callerBuf)), kit.Bool(tok == ""), zc(nowAbs), bs(audOf(cs.Val.PType)), bs(cs.Val.App), v.coq(), origin, o1.coq(), o2.coq(), auth)
 
 	tagset["tok:"+o1.tag()] = true
 	tagset["apptok:"+o2.tag()] = true
@@ -967,9 +1049,9 @@ func run(cs *caseSpec) (coq string, tags []string, key string, nontrivial bool, 
 		signer = cs.Issue.Key
 	}
 	if signer >= 0 {
-		rel := keyRelation(signer, cs.Val.Key)
+		rel := keyRelation(signer, cs.Val.Key, v.keyAlg())
 		tagset[rel] = true
-		if rel != "keys:same" && (o1.code == "ok" || o2.code == "ok") {
+		if rel != "keys:same" && rel != "keys:hmac-equivalent" && (o1.code == "ok" || o2.code == "ok") {
 			if cs.Val.Wipe && bytes.Equal(secret(signer), callerBuf) {
 				tagset["C14-ALIAS:signed-under-the-callers-overwritten-buffer-accepted"] = true
 			} else {
@@ -1020,7 +1102,7 @@ func run(cs *caseSpec) (coq string, tags []string, key string, nontrivial bool, 
 			shape += "/alg=" + v.alg
 			nontrivial = true
 		}
-		shape += fmt.Sprintf("/sig=%v,%v,%v", v.sigB64, v.macKey == cs.Val.Key, v.sigCanon)
+		shape += fmt.Sprintf("/sig=%v,%v,%v", v.sigB64, v.macKey != nil && bytes.Equal(v.macKey, hmacBlock(v.keyAlg(), valKey)), v.sigCanon)
 	}
 	for t := range tagset {
 		tags = append(tags, t)
